@@ -98,6 +98,13 @@ def materialise(wd, d):
             recs.append({"chrom": names[ci], "pos": v.pos + 1, "ref": v.ref, "alt": v.alt,
                          "fmt": ["GT"] + ([wd["stale_phase"]] if wd.get("stale_phase") else []) + (["PL"] if wd.get("pl_weak") else []),
                          "calls": calls, "_k": (ci, v.pos, 0)})
+    for ci_, si_ in wd.get("multi_before", []):
+        # an (ignored) multi-ALT record listed directly in front of the site's record at the SAME position
+        if ci_ < len(seqs) and si_ < len(seqs[ci_][1]):
+            v_ = seqs[ci_][1][si_]
+            others = [b_ for b_ in "ACGT" if b_ != v_.ref[0] and b_ != v_.alt[0]]
+            recs.append({"chrom": names[ci_], "pos": v_.pos + 1, "ref": v_.ref[0], "alt": ",".join(others[:2]),
+                         "fmt": ["GT"], "calls": [[rng.choice(["0/0", "1/2", "0/2"])] for _ in samples], "_k": (ci_, v_.pos, -1)})
     for x in wd.get("extra", []):
         r = dict(x)
         r["chrom"] = names[x["chrom"]]
